@@ -6,6 +6,7 @@ import (
 	"fmt"
 	"hash/fnv"
 	"reflect"
+	"strings"
 
 	"golang.org/x/crypto/ssh"
 
@@ -326,6 +327,17 @@ func main() {
 				`{"prins":["a"],"transID":"t","reqUser":"u","reqIP":"i","reqHost":"h","isFirefighter":true,"isHWKey":true,"isHeadless":false,"isNonce":false,"touchPolicy":3,"ver":null}`,
 				`{"prins":["a"],"transID":"t","reqUser":"u","reqIP":"i","reqHost":"h","isFirefighter":false,"isHWKey":true,"isHeadless":false,"isNonce":true,"touchPolicy":1,"ver":"1"}`,
 				"user@host", "\x00\xff", `{"prins":["a"],"transID":"t"`}
+			// derived from a KeyID that does decode (and selects the touchless type): text after or before it, every
+			// required member removed in turn, or moved into a member the decoder ignores
+			good := `{"prins":["a"],"transID":"t","reqUser":"u","reqIP":"i","reqHost":"h","isFirefighter":false,"isHWKey":true,"isHeadless":false,"isNonce":false,"touchPolicy":1,"ver":1}`
+			for _, tail := range []string{"x", "}", good, " trailing", "\n[]", ",", "\x00"} {
+				bad = append(bad, good+tail)
+			}
+			bad = append(bad, "x"+good, "[]"+good, "["+good+"]", `"`+strings.ReplaceAll(good, `"`, `\"`)+`"`)
+			for _, member := range []string{`"prins":["a"],`, `"transID":"t",`, `"reqUser":"u",`, `"reqIP":"i",`, `"reqHost":"h",`, `"isFirefighter":false,`, `"isHWKey":true,`, `"isHeadless":false,`, `"isNonce":false,`, `"touchPolicy":1,`} {
+				without := strings.Replace(good, member, "", 1)
+				bad = append(bad, without, strings.Replace(without, `"ver":1`, `"ver":1,"ext":{`+strings.TrimSuffix(member, ",")+`}`, 1))
+			}
 			for i, kid := range bad {
 				c := r.Case("undecodable", i)
 				if c == nil {
